@@ -131,6 +131,9 @@ type Engine struct {
 
 	wgConn sync.WaitGroup
 
+	// wgListener is used to wait for the accept loops to exit.
+	wgListener sync.WaitGroup
+
 	// store std connections, for Windows only.
 	connsStd map[*Conn]struct{}
 
@@ -201,6 +204,10 @@ func (g *Engine) Stop() {
 	for _, l := range g.listeners {
 		l.stop()
 	}
+	// A connection that was accepted just before its listener was closed is
+	// still on its way to a poller, wait for the accept loops to exit, else
+	// it would be missing in the connections collected below and stay open.
+	g.wgListener.Wait()
 
 	g.mux.Lock()
 	conns := g.connsStd
